@@ -11,7 +11,8 @@ CFG = {
         "scalar token of any length): a decoded value equals the independent arbitrary-precision reading of the token "
         "(c20_exact_or_error; the only panic is JsInt64 on the lone quote character, c20_only_panic); (2) decode(encode v) = v for "
         "every value of every type, extremes included (c20_roundtrip and per-type corollaries; c20_value_scan for the SQL forms); "
-        "(3) no false rejection for the integer wrappers; (4) the pre-fix decoders refuted on 123 / 1234 / 101 / 256/-1/7. "
+        "(2b) the round trip is also checked on what an encoder's result reads as AFTER later encoder calls, sequential and concurrent "
+        "(an encoder must not hand out memory it keeps using); (3) no false rejection for the integer wrappers; (4) the pre-fix decoders refuted on 123 / 1234 / 101 / 256/-1/7. "
         "The model is tied to the source on every run: generated tokens/values are run through the real wrappers directly and "
         "through encoding/json and jsoniter (top level and struct field, with a probe type recording what reaches UnmarshalJSON) "
         "and Coq evaluates model-equality and the monitor on every observation with vm_compute. Proof is the right level: the "
@@ -33,7 +34,12 @@ CFG = {
         "one case = one input run through the real code: a token through UnmarshalJSON on up to five paths (direct, encoding/json "
         "top-level and struct field, jsoniter top-level and struct field; paths grouped by the bytes that reached UnmarshalJSON), "
         "a text through FromString/HexI64/..., a value through MarshalJSON/ToString/I64Hex/... and back, an SQL argument through "
-        "Scan, a value through Value and Scan, an argument through UnmarshalTOML. A decode case is non-trivial when the token "
+        "Scan, a value through Value and Scan, an argument through UnmarshalTOML; or one HISTORY of encoder calls (class hist: 2-8 "
+        "values encoded through every encoder entry point of the type - MarshalJSON, json.Marshal, jsoniter.Marshal, both inside a "
+        "struct, ToJS, ToString, the hex formatters, Value - the results kept exactly as the API returned them, 1-4 further values "
+        "encoded, and only then every kept result read, compared with the model's text and decoded; class conc: 4-8 goroutines "
+        "started together each repeat one encoder call 200 times, first and last result kept, read and decoded after all "
+        "goroutines returned - WaitGroup barrier, no sleeps). A decode case is non-trivial when the token "
         "reached the wrapper through at least one JSON library path or was decoded to a value; every encode/round-trip, Scan, "
         "Value and string-typed TOML case is non-trivial. distinct = distinct Coq case term (input + observation)."
     ),
